@@ -194,6 +194,10 @@ def oracle_write(case):
     nullspec = case["nullspec"]
     cols = case["cols"]  # list of list of float-text cells ("nan" allowed off the index)
     desc = {"null": nullspec, "curves": [["C%d" % j, "", "", "", col] for j, col in enumerate(cols)]}
+    tcol = case.get("textcol")
+    if tcol:
+        # a text curve next to the numeric ones: NaN must still be written as the NULL value
+        desc["curves"].append(["LITH", "", "", "", list(tcol), "s"])
     las = attempt(build.build_las, desc)
     if is_raised(las):
         out.fail("build-raises|" + las.bucket, str(las))
@@ -213,12 +217,14 @@ def oracle_write(case):
     lines = text.split("\n")
     start = max(i for i, ln in enumerate(lines) if ln.startswith("~A"))
     toks = " ".join(lines[start + 1:]).split()
-    c, r = len(cols), len(cols[0])
+    c, r = len(cols) + (1 if tcol else 0), len(cols[0])
+    if tcol:
+        out.cls("write-with-text-curve")
     if len(toks) != c * r:
         out.fail("written-token-count", "expected %d data tokens, found %d\n%s" % (c * r, len(toks), text))
         return out
     for i in range(r):
-        for j in range(c):
+        for j in range(len(cols)):
             if cols[j][i] == "nan":
                 tok = toks[i * c + j]
                 try:
@@ -232,14 +238,18 @@ def oracle_write(case):
         if is_raised(back):
             out.fail("reread-raises|" + back.bucket, "%s\n%s" % (back, text))
             return out
-        if len(back.curves) != len(cols) or any(len(cv.data) != len(cols[0]) for cv in back.curves):
+        if len(back.curves) != c or any(len(cv.data) != len(cols[0]) for cv in back.curves):
             out.fail("write-shape|" + engine, "expected %d curves x %d rows, got %r\n%s" % (
-                len(cols), len(cols[0]), [len(cv.data) for cv in back.curves], text))
+                c, len(cols[0]), [len(cv.data) for cv in back.curves], text))
             return out
         for j, col in enumerate(cols):
             for i, cell in enumerate(col):
                 x = fdec(cell)
-                got = float(back.curves[j].data[i])
+                try:
+                    got = float(back.curves[j].data[i])
+                except (TypeError, ValueError):
+                    out.fail("numeric-cell-not-float|write|" + engine, "cell (%d,%d)=%s came back as %r\n%s" % (i, j, cell, back.curves[j].data[i], text))
+                    continue
                 prints_as_null = (not math.isnan(x)) and float(fmt % x) == float(nullv)
                 want_nan = j != 0 and (math.isnan(x) or prints_as_null)
                 if want_nan and not math.isnan(got):
@@ -278,7 +288,10 @@ def write_cases(draw):
         cols.append(col)
     opts = dict(version=draw(st.sampled_from([1.2, 2])), wrap=draw(st.booleans()),
                 fmt=draw(st.sampled_from(["%.5f", "%.3f", "%.10g", "%.2f"])))
-    return dict(side="write", nullspec=nullspec, cols=cols, opts=opts)
+    case = dict(side="write", nullspec=nullspec, cols=cols, opts=opts)
+    if draw(st.integers(0, 3)) == 0:
+        case["textcol"] = [draw(st.sampled_from(["SAND", "LIME", "x1", "N/A"])) for _ in range(r)]
+    return case
 
 
 def parts(tier):
